@@ -16,7 +16,10 @@ import time
 
 REPO = os.environ.get("VERIF_REPO", "/repo")
 VERIF = os.path.dirname(os.path.dirname(os.path.abspath(__file__)))
-CACHE = os.path.join(VERIF, ".cache")
+# VERIF_REPO=<scratch worktree> redirects a check to another copy of the repository (used to try
+# seeded changes without touching /repo); it then gets its own cache so builds never mix.
+CACHE = os.path.join(VERIF, ".cache") if REPO == "/repo" else os.path.join(
+    VERIF, ".cache", "alt-" + hashlib.sha1(REPO.encode()).hexdigest()[:10])
 BUILD = os.path.join(CACHE, "ompl-build")
 MANIFEST = os.path.join(CACHE, "ompl-build.manifest.json")
 GUARD = "OMPL_VERIF"
